@@ -220,3 +220,17 @@ pub open spec fn br_product(a: Set<String>, b: Set<String>, w: Seq<char>) -> boo
     exists |u: Seq<char>, v: Seq<char>| #![trigger u + v] br_member(a, u) && br_member(b, v) && w =~= u + v
 }
 
+// ---------------- merge_bricks_with_bound_one -----------------------------------------------------------------------------------
+
+/// what `a.iter().cartesian_product(b.iter()).collect_vec()` holds (contract of shim verif_br_cartesian_product): every entry is a
+/// pair (element of a, element of b), and every such pair occurs
+pub open spec fn br_cart_of(p: Seq<(&String, &String)>, a: Set<String>, b: Set<String>) -> bool {
+    &&& forall |i: int| 0 <= i < p.len() ==> a.contains(*(#[trigger] p[i]).0) && b.contains(*p[i].1)
+    &&& forall |x: String, y: String| #![trigger a.contains(x), b.contains(y)] a.contains(x) && b.contains(y)
+            ==> exists |i: int| 0 <= i < p.len() && *(#[trigger] p[i]).0 == x && *p[i].1 == y
+}
+
+/// the strings inserted by the first n rounds of the loop of merge_bricks_with_bound_one: first + second component of a pair
+pub open spec fn br_prod_partial(p: Seq<(&String, &String)>, n: int, z: Seq<char>) -> bool {
+    exists |k: int| 0 <= k < n && z =~= (#[trigger] p[k]).0@ + p[k].1@
+}
